@@ -66,6 +66,7 @@ class Exec:
         self.known = []  # path conditions (value, polarity) of the branch being executed
         self.attrs = {}  # (value, attribute name) -> value: what the caller fixes about its symbols (e.g. the rank of x.shape)
         self.callhooks = {}  # function value -> f(args, kwargs) -> value or None: semantics the caller gives to an external helper
+        self.probes = []  # (line, path conditions, iterable, locals after one generic iteration) of loops that end a path
         self.watch = {}  # function / method name -> list of (path conditions, args, kwargs) of every call met
         self.funcs = {n.name: n for n in tree.body if isinstance(n, ast.FunctionDef)}
         self.classes = {n.name: n for n in tree.body if isinstance(n, ast.ClassDef)}
@@ -278,6 +279,12 @@ class Exec:
         # the last k sizes of a tensor of unknown rank: x.shape[-k:] has k entries (the rank is at least k where this is used)
         if obj[0] == "attr" and obj[2] == "shape" and idx[0] == "slice" and is_const(idx[1]) and type(idx[1][1]) is int and idx[1][1] < 0 and idx[2] == NONE and idx[3] == NONE:
             return ("tuple", tuple(("sub", obj, const(i)) for i in range(idx[1][1], 0)))
+        # an element of a slice taken from the end: x[-3:-1][0] is x[-3]
+        if obj[0] == "sub" and obj[2][0] == "slice" and is_const(idx) and type(idx[1]) is int and obj[2][3] == NONE and is_const(obj[2][1]) and type(obj[2][1][1]) is int and obj[2][1][1] < 0 and (obj[2][2] == NONE or (is_const(obj[2][2]) and type(obj[2][2][1]) is int and obj[2][2][1] < 0)):
+            lo = obj[2][1][1]
+            hi = 0 if obj[2][2] == NONE else obj[2][2][1]
+            if 0 <= idx[1] < hi - lo:
+                return ("sub", obj[1], const(lo + idx[1]))
         if obj[0] == "dict" and is_const(idx):
             for k, v in obj[1]:
                 if k == idx:
@@ -380,7 +387,10 @@ class Exec:
         target = self.resolve(f)
         if target is not None:
             fn, selfv, owner = target
-            return self.inline_call(fn, selfv, owner, args, kwargs, node)
+            try:
+                return self.inline_call(fn, selfv, owner, args, kwargs, node)
+            except Untranslatable:
+                pass  # a helper outside the subset stays a call
         return ("call", f, args, kwargs)
 
     def resolve(self, f):
@@ -458,6 +468,7 @@ class Exec:
         sub.known = self.known
         sub.watch = self.watch
         sub.attrs = self.attrs
+        sub.probes = self.probes
         sub.callhooks = self.callhooks
         tree = sub.block(strip_doc(fn.body), env, lambda e: ("ret", NONE))
         return self.tree_value(tree, node)
@@ -486,7 +497,7 @@ class Exec:
             for k, t in enumerate(target.elts):
                 if isinstance(t, ast.Starred):
                     self.fail(target, "starred target")
-                self.bind(t, ("sub", value, const(k)), env)
+                self.bind(t, self.subscript(value, const(k)), env)
             return
         self.fail(target, "assignment target outside subset")
 
@@ -605,8 +616,47 @@ class Exec:
         over range(n), and a body of plain assignments to locals becomes a fold over the carried locals."""
         e3 = self._map_loop_env(s, it, env)
         if e3 is None:
-            e3 = self._fold_loop_env(s, it, env)
+            try:
+                e3 = self._fold_loop_env(s, it, env)
+            except Untranslatable:
+                self.probe_loop(s, it, env)
+                raise
         return cont(e3)
+
+    def probe_loop(self, s, it, env):
+        """A loop that is neither a map nor a fold ends the path, but one generic iteration of its body is still executed
+        (every local the body assigns is first replaced by an unknown, so nothing is assumed about earlier iterations):
+        the calls it makes are seen by `watch`, and the locals after the iteration are recorded in `probes`."""
+        assigned = set()
+        for n in ast.walk(s):
+            if isinstance(n, (ast.Assign, ast.AugAssign, ast.AnnAssign)):
+                for t in (n.targets if isinstance(n, ast.Assign) else [n.target]):
+                    for m in ast.walk(t):
+                        if isinstance(m, ast.Name):
+                            assigned.add(m.id)
+            if isinstance(n, ast.Call) and isinstance(n.func, ast.Attribute) and isinstance(n.func.value, ast.Name) and n.func.attr in ("append", "extend", "insert", "pop", "clear"):
+                assigned.add(n.func.value.id)
+        e2 = dict(env)
+        self.bound += 1
+        try:
+            d = self.bound
+            for n in assigned:
+                if n in e2:
+                    e2[n] = ("havoc", n, d)
+            it2 = self.bind_symbolic_element(s.target, it, e2, s)
+            out = {}
+
+            def done(e3):
+                out.update(e3)
+                return ("ret", NONE)
+
+            try:
+                self.block(list(s.body), e2, done)
+            except Untranslatable:
+                pass
+            self.probes.append((getattr(s, "lineno", None), tuple(self.known), it2, out))
+        finally:
+            self.bound -= 1
 
     def _map_loop_env(self, s, it, env):
         if not s.body:
@@ -739,7 +789,24 @@ def watch_calls(tree, path, qualname, names, opaque=(), inline=None):
         ex.block(strip_doc(node.body), env, lambda e: ("ret", NONE))
     except Untranslatable as e:
         stopped = e
+    ex.watch["$probes"] = ex.probes
     return ex.watch, stopped
+
+
+def find_nodes(v, pred, acc=None):
+    """All sub-values of a value tree (or of a dict / list of them) satisfying pred."""
+    acc = [] if acc is None else acc
+    if isinstance(v, dict):
+        for x in v.values():
+            find_nodes(x, pred, acc)
+        return acc
+    if isinstance(v, tuple):
+        if v and isinstance(v[0], str) and pred(v):
+            acc.append(v)
+        for x in v:
+            if isinstance(x, (tuple, dict)):
+                find_nodes(x, pred, acc)
+    return acc
 
 
 def run_function(tree, path, qualname, opaque=(), inline=None, args=None, max_depth=4, allow_stuck=False, attrs=None, assume=(), callhooks=None):
